@@ -21,10 +21,12 @@ HasExactSqrt(x) == IsFinite(x) /\ x[1] >= 0 /\ x[1] <= 100000 /\ x[2] <= 100000 
 Un(op, a) == IF IsUndef(a) THEN Undef ELSE [op |-> op, a |-> a]
 Bin(op, a, b) == IF IsUndef(a) \/ IsUndef(b) THEN Undef ELSE [op |-> op, a |-> a, b |-> b]
 
-AddE(a, b) == IF IsQ(a) /\ IsQ(b) THEN Q(Add(a.v, b.v)) ELSE Bin("add", a, b)
-SubE(a, b) == IF IsQ(a) /\ IsQ(b) THEN Q(Sub(a.v, b.v)) ELSE Bin("sub", a, b)
+IsZeroQ(e) == IsQ(e) /\ e.v = Zero
+AddE(a, b) == IF IsQ(a) /\ IsQ(b) THEN Q(Add(a.v, b.v)) ELSE IF IsZeroQ(a) THEN b ELSE IF IsZeroQ(b) THEN a ELSE Bin("add", a, b)
+SubE(a, b) == IF IsQ(a) /\ IsQ(b) THEN Q(Sub(a.v, b.v)) ELSE IF IsZeroQ(b) THEN a ELSE Bin("sub", a, b)
 MulE(a, b) == IF IsQ(a) /\ IsQ(b) THEN Q(Mul(a.v, b.v)) ELSE Bin("mul", a, b)
-DivE(a, b) == IF IsQ(a) /\ IsQ(b) THEN Q(Div(a.v, b.v)) ELSE Bin("div", a, b)
+\* x / x = 1 for a non-constant x (callers guarantee x # 0: logarithms of rationals other than 1, roots of positives)
+DivE(a, b) == IF IsQ(a) /\ IsQ(b) THEN Q(Div(a.v, b.v)) ELSE IF ~IsUndef(a) /\ ~IsQ(a) /\ a = b THEN Q(One) ELSE Bin("div", a, b)
 SqE(a)     == MulE(a, a)
 AbsE(a)    == IF IsQ(a) THEN Q(IF IsNaN(a.v) THEN NaN ELSE AbsR(a.v)) ELSE Un("abs", a)
 SqrtE(a)   == IF IsQ(a) /\ HasExactSqrt(a.v) THEN Q(Frac(IntSqrt(a.v[1]), IntSqrt(a.v[2])))
